@@ -255,11 +255,11 @@ def c036(ctx):
                                                 'DERIVES FROM A LOSSY DECODER: a multi-byte character split by a read boundary (or an invalid byte) comes back as U+FFFD — the replayed frame differs from the one written'), line=s_.line)
 
 
-def c037(ctx):
+def c037(ctx, rid='C03.7'):
     """the recorded-frames buffers (session, task) are what the per-session snapshot and the
     catch-up replay are written from: they only grow."""
     P = ctx.prog
-    ctx.rule('C03.7', 'recorded history only grows: no shrinking operation (drain / truncate / clear / remove / pop / retain / split_off / swap_remove / dedup) is applied to a Vec<Event> reached through a mutex guard (the session and task history buffers the snapshot and the catch-up replay are written from); a trimmed buffer yields a snapshot without its head while the log and the live stream carried every frame.')
+    ctx.rule(rid, 'recorded history only grows: no shrinking operation (drain / truncate / clear / remove / pop / retain / split_off / swap_remove / dedup) is applied to a Vec<Event> reached through a mutex guard (the session and task history buffers the snapshot and the catch-up replay are written from); a trimmed buffer yields a snapshot without its head while the log and the live stream carried every frame.')
     SHRINK = r'alloc::vec::Vec::<T, A>::(drain|truncate|clear|remove|pop|retain|retain_mut|split_off|swap_remove|dedup\w*)$'
     GROW = r'alloc::vec::Vec::<T, A>::(push|extend|extend_from_slice|append)$'
     DER = (r'::deref_mut$', r'::deref$', r'::as_mut$')
@@ -277,10 +277,10 @@ def c037(ctx):
             if r is None or not re.search(r'MutexGuard<.*alloc::vec::Vec<rip_kernel::Event>>', f.lty(r)):
                 continue
             (shrinks if kind == 'shrink' else grows).append((f, s_))
-    ctx.floor('C03.7', 'pushes into a guarded history buffer (the buffers the rule protects)', len(grows), 2)
+    ctx.floor(rid, 'pushes into a guarded history buffer (the buffers the rule protects)', len(grows), 2)
     for f, s_ in grows:
         ctx.touch(f)
-    ctx.ob('C03.7', 'workspace', 'history-append-only', not shrinks,
+    ctx.ob(rid, 'workspace', 'history-append-only', not shrinks,
            '%d push site(s) into guarded Vec<Event> buffers; %s' % (len(grows), 'no shrinking operation on any of them' if not shrinks else
                                                                     '%s applies %s to the history buffer: the snapshot written from it loses frames the log and the subscribers have' % (shrinks[0][0].path, shrinks[0][1].name)),
            line=shrinks[0][1].line if shrinks else 0)
